@@ -15,7 +15,11 @@ def tu_check(tu):
     from ..rules import firstbucket, sepguard
     fb = firstbucket.analyse_tu(tu)
     sg = sepguard.c_check(tu)
-    f = a["findings"] + b["findings"] + c["findings"] + u["findings"] + fb["findings"] + sg["findings"] + \
+    from ..rules import convert
+    nw = convert.analyse_narrowing(tu)
+    # integer conversions only: the float32 narrowing is C13's (known finding there)
+    nw["findings"] = [x for x in nw["findings"] if "float" not in x["construct"]]
+    f = a["findings"] + b["findings"] + c["findings"] + u["findings"] + fb["findings"] + sg["findings"] + nw["findings"] + \
         [x for x in w["findings"] if x["rule"] == "ALIAS-GUARD"]
     # the setstate loaders are not single-key calls
     f = [x for x in f if not (x["rule"] == "CONV-BEFORE-MUT" and "setstate" in (x.get("function") or ""))]
@@ -63,7 +67,7 @@ def py_keyerror_clean(res):
 def run(tier="quick", seed=0, use_cache=True):
     res = engine.Result("C01")
     res.rules = ["NONE-ORD", "SEARCH-DEFUSE", "SEARCH-BRANCH", "CONV-BEFORE-MUT",
-                 "KEYERROR-AFTER-MUT", "GROW-ROLLBACK", "UNLINK-STATUS", "ALIAS-GUARD", "PY-TAINT", "FIRSTBUCKET-INV", "SEP-REFRESH", "PY-DEL-TAIL"]
+                 "KEYERROR-AFTER-MUT", "GROW-ROLLBACK", "UNLINK-STATUS", "ALIAS-GUARD", "PY-TAINT", "FIRSTBUCKET-INV", "SEP-REFRESH", "PY-DEL-TAIL", "NARROW-GUARD", "INPLACE-OPERAND", "INPLACE-MONOTONE"]
     res.explanation = (
         "Structural necessary conditions of sorted-map behaviour, decided "
         "from source for all 22 translation units and the Python classes: "
@@ -119,7 +123,7 @@ def run(tier="quick", seed=0, use_cache=True):
     tmp = engine.Result("C01")
     setwiring.py_rules(tmp)
     for f in tmp.findings:
-        if f["rule"] == "ALIAS-GUARD":
+        if f["rule"] in ("ALIAS-GUARD", "INPLACE-OPERAND", "INPLACE-MONOTONE"):
             res.findings.add(f)
     res.extra["compare_headers"] = headers
     res.samples = [
